@@ -41,7 +41,7 @@ def scenario(kind, cmd):
         # (the volume also has a valid, empty $topdir/.Trash/$uid: .Trash-$uid stays a trash directory of the volume)
         nodes += [W.d('/v/.Trash', 0o1777), W.d('/v/.Trash/1000', 0o700), W.d('/v/.Trash/1000/files', 0o700), W.d('/v/.Trash/1000/info', 0o700)]
         nodes += K.trashed(td, 'x', 'w/x', '2020-01-02T00:00:00', K.KINDS[kind], 2000)
-        nodes += K.trashed(td, 'y', 'w/y', '2020-01-01T00:00:00', 'dir', 2100)
+        nodes += K.trashed(td, 'y', 'w/y%20', '2020-01-01T00:00:00', 'dir', 2100)  # (trashed from a name ending in a blank: 'y ')
         nodes += K.trashed(td, 'z', 'w/sub/z', '2020-01-03T00:00:00', 'link-dir', 2200)
         if c == 'restore-same-volume':
             step, sel = C('restore', ['/v/w'], e, stdin=['1'], cwd='/'), ['x']
@@ -139,7 +139,7 @@ def _case(kind, cmd, k, mode=0):
         restoring = []
         if is_restore:
             for name in sel:
-                restoring.append((name, {'x': '/v/w/x', 'y': '/v/w/y', 'z': '/v/w/sub/z'}[name]))
+                restoring.append((name, {'x': '/v/w/x', 'y': '/v/w/y ', 'z': '/v/w/sub/z'}[name]))
         x = invariant(before, after, td, label, restoring)
         if x:
             return x + ' [%s, syscall %d of %d: %r]' % (MODES[mode], k, n, m.oplog[-3:])
